@@ -390,7 +390,7 @@ func c09_4(c *core.Ctx, p *core.Prog) {
 	// fields of the processor struct by role: timeout (time.Duration), and the
 	// size compared in the flush loop
 	timerField := (*types.Var)(nil)
-	st := a.shard.Underlying().(*types.Struct)
+	st := core.FlatStruct(a.shard)
 	for i := 0; i < st.NumFields(); i++ {
 		if core.TypePkgPath(st.Field(i).Type()) == "time" && core.TypeName(st.Field(i).Type()) == "Timer" {
 			timerField = st.Field(i)
@@ -398,7 +398,7 @@ func c09_4(c *core.Ctx, p *core.Prog) {
 	}
 	var timeoutF, sizeF *types.Var
 	if m.procType != nil {
-		ps := m.procType.Underlying().(*types.Struct)
+		ps := core.FlatStruct(m.procType)
 		for i := 0; i < ps.NumFields(); i++ {
 			f := ps.Field(i)
 			if core.TypePkgPath(f.Type()) == "time" && core.TypeName(f.Type()) == "Duration" {
@@ -427,36 +427,56 @@ func c09_4(c *core.Ctx, p *core.Prog) {
 				}
 				return ""
 			}
-			core.EachInstr(m.ctorFn, func(i ssa.Instruction) {
-				s, ok := i.(*ssa.Store)
-				if !ok {
-					return
-				}
-				fa, ok := s.Addr.(*ssa.FieldAddr)
-				if !ok || core.NamedOf(fa.X.Type()) != m.procType {
-					return
-				}
-				if _, isNum := core.FieldVar(fa).Type().Underlying().(*types.Basic); !isNum {
-					return
-				}
-				direct := tagOf(core.StripConv(s.Val))
-				derived := ""
-				core.BackSlice(s.Val, func(v ssa.Value) bool {
-					if t := tagOf(v); t != "" && derived == "" {
-						derived = t
+			// the constructor and the package helpers it calls (a settings struct embedded in the
+			// processor may be filled by a helper that returns it): stores into any field the
+			// processor has, directly or promoted from an embedded package struct
+			procField := map[*types.Var]bool{}
+			for i := 0; i < ps.NumFields(); i++ {
+				procField[ps.Field(i)] = true
+			}
+			scan := []*ssa.Function{m.ctorFn}
+			inScan := map[*ssa.Function]bool{m.ctorFn: true}
+			for k := 0; k < len(scan) && k < 16; k++ {
+				core.EachCall(scan[k], func(ci ssa.CallInstruction) {
+					if sc := ci.Common().StaticCallee(); sc != nil && sc.Blocks != nil && core.FnPkgPath(sc) == core.CBPPath && !inScan[sc] && sc.Signature.Recv() == nil {
+						inScan[sc] = true
+						scan = append(scan, sc)
 					}
-					return true
 				})
-				if derived == "" {
-					return
-				}
-				if derived == "send_batch_size" {
-					sizeF = core.FieldVar(fa)
-				}
-				c.Check(direct == derived, "config|verbatim|"+derived, p.Pos(s.Pos()), core.FuncName(m.ctorFn),
-					"the processor uses the configured "+derived+" as it is",
-					"the processor does not take the configured "+derived+" as it is (the constructor rewrites it, e.g. replaces 0 by a default): the documented meaning of the special value is lost — with send_batch_size 0 requests are no longer passed on at once but wait for the substituted size or the timer, and what Validate checked is not what runs")
-			})
+			}
+			for _, ctor := range scan {
+				ctor := ctor
+				core.EachInstr(ctor, func(i ssa.Instruction) {
+					s, ok := i.(*ssa.Store)
+					if !ok {
+						return
+					}
+					fa, ok := s.Addr.(*ssa.FieldAddr)
+					if !ok || !procField[core.FieldVar(fa)] {
+						return
+					}
+					if _, isNum := core.FieldVar(fa).Type().Underlying().(*types.Basic); !isNum {
+						return
+					}
+					direct := tagOf(core.StripConv(s.Val))
+					derived := ""
+					core.BackSlice(s.Val, func(v ssa.Value) bool {
+						if t := tagOf(v); t != "" && derived == "" {
+							derived = t
+						}
+						return true
+					})
+					if derived == "" {
+						return
+					}
+					if derived == "send_batch_size" {
+						sizeF = core.FieldVar(fa)
+					}
+					c.Check(direct == derived, "config|verbatim|"+derived, p.Pos(s.Pos()), core.FuncName(ctor),
+						"the processor uses the configured "+derived+" as it is",
+						"the processor does not take the configured "+derived+" as it is (the constructor rewrites it, e.g. replaces 0 by a default): the documented meaning of the special value is lost — with send_batch_size 0 requests are no longer passed on at once but wait for the substituted size or the timer, and what Validate checked is not what runs")
+				})
+			}
 		}
 	}
 	if timerField == nil || timeoutF == nil || sizeF == nil {
@@ -651,7 +671,7 @@ func c09_5(c *core.Ctx, p *core.Prog) {
 		return
 	}
 	var timerField *types.Var
-	st := a.shard.Underlying().(*types.Struct)
+	st := core.FlatStruct(a.shard)
 	for i := 0; i < st.NumFields(); i++ {
 		if core.TypePkgPath(st.Field(i).Type()) == "time" && core.TypeName(st.Field(i).Type()) == "Timer" {
 			timerField = st.Field(i)
@@ -753,7 +773,7 @@ func c09_7(c *core.Ctx, p *core.Prog) {
 		return
 	}
 	var timerField *types.Var
-	st := a.shard.Underlying().(*types.Struct)
+	st := core.FlatStruct(a.shard)
 	for i := 0; i < st.NumFields(); i++ {
 		if core.TypePkgPath(st.Field(i).Type()) == "time" && core.TypeName(st.Field(i).Type()) == "Timer" {
 			timerField = st.Field(i)
